@@ -5,7 +5,7 @@
    Follows the code as it is at /repo HEAD (after the fix: commits recorded in
    KNOWN_FINDINGS.txt). No proofs here. *)
 From Coq Require Import String List NArith ZArith Bool.
-From J5V.lib Require Import Outcome.
+From J5V.lib Require Import Outcome Strcase.
 From J5V.model Require Import RulesDecl.
 From J5V.gen Require Id62Gen.
 Import ListNotations.
@@ -270,7 +270,7 @@ Definition write_prop (env : enum_env) (idx : N) (d : prop) : outcome fout :=
                                   | _, None => false
                                   end in
        if p_opt d && required then Err "cannot be both required and optional"
-       else Ok (FO (p_name d) (idx + 1)%N (fw_kind w)
+       else Ok (FO (p_name d) (to_snake (p_name d)) (idx + 1)%N (fw_kind w)   (* strcase.ToSnake(node.Schema.Name) *)
                    (match p_ty d with PSingle _ => false | _ => true end)
                    (* HasOptionalKeyword of the linked field: never true for a repeated field *)
                    (match p_ty d with PSingle _ => p_opt d | _ => false end)
